@@ -218,6 +218,14 @@ def shapes : List (String × String) := [
   ("actReturnValue", "checkExpectations();if(matchingExpectation_)return matchingExpectation_->returnValue();return MockNamedValue(\"no return value\");"),
   ("actHasReturnValue", "return!returnValue().getName().isEmpty();")]
 
+/-- the adaptor nodes pass the C++ core's operands on in the same order: `isEqual(object1, object2)` calls
+    `equal_(object1, object2)` (the core passes (expected, actual), so a C comparator sees (expected, actual) like a C++
+    comparator does), `copy(dst, src)` calls `copier_(dst, src)` -/
+def adaptors : List AdaptorCall := [
+  { method := "isEqual", callee := "equal_", order := [0, 1], wrap := "!=0" },
+  { method := "valueToString", callee := "toString_", order := [0], wrap := "SimpleString" },
+  { method := "copy", callee := "copier_", order := [0, 1], wrap := "" }]
+
 /-! ## the C++ program a C scenario stands for -/
 
 def kindOfStore : Ptr → XKind
